@@ -51,6 +51,7 @@ def run_program(case, out, spec=None):
     try:
         names = sorted(sim.workers)
         sim.inject = sc.resolve_injections(case.get('inject', []), names)
+        sim.rinject = sc.resolve_rinjections(case.get('rinject', []), names)
         fired_pending = [False]
         comp = sim.compiler()
         task = make_root_task(spec)
@@ -107,6 +108,7 @@ def judge(case, out, sim, res, spec):
     out.evals = 1
 
 
+@sc.abandon_safe
 def check(case) -> Outcome:
     logging.disable(logging.CRITICAL)
     out = Outcome()
@@ -177,6 +179,7 @@ def cases(draw, quick=True):
         'policy': draw(st.sampled_from([None, None, 'lazy_recv',
                                         'eager_recv'])),
         'inject': draw(sc.injections),
+        'rinject': draw(sc.rinjections),
     }
 
 
